@@ -375,7 +375,9 @@ pub fn run<M: Model + Clone>(spec: Spec<M>, out: &mut Outcome) {
     }
 
     let min_completed = completed_depth.iter().map(|c| c.1).min().unwrap_or(0);
-    if groups.is_empty() && total_states < spec.min_states {
+    // (only where the search was not cut short by its wall cap: on a slow
+    // machine a small count says nothing about the harness)
+    if groups.is_empty() && total_states < spec.min_states && all_stats.iter().all(|s| s.completed) {
         out.machinery_errors.push(format!(
             "vacuity guard: only {} distinct states (floor {})",
             total_states, spec.min_states
